@@ -54,6 +54,44 @@ theorem cost_walk_lower (n : Nat) :
 /-- Non-vacuity / sample: `n = 3` — 41 tokens, 23 visits. -/
 example : costVisits 100 (chainDoc fname 3) = some { visits := 23, err := false } := by decide +kernel
 
+/-
+  The full-strength statement for the cost walk — what the property demands — is
+
+      theorem cost_walk_poly : ∃ c k, ∀ (d : Document) (fuel : Nat) (w : Walk),
+          wfDocument d = true → costVisits fuel d = some w → w.visits ≤ c * d.stoks.length ^ k
+
+  It is FALSE of the walk as written (finding F-12c) and therefore not in the build: `cost_walk_lower`
+  above is its machine-checked negation witness (≥ 2ⁿ visits on 10·n + 11 tokens, for every n; the
+  `example` is the instance n = 3, the harness replays n = 16 on the real code on every run).
+  What is proved is the bound under the extra hypothesis the proof forced — no fragment spread is
+  expanded:
+-/
+
+/-- **cost_walk_poly_partial** — if the operation the cost walk runs on contains no fragment spread, the
+    walk reports no error and visits every field exactly once: `visits = selCount ≤ tokens` (linear).
+    Hypothesis forced by F-12c: `noSpreadSet` — with spreads the count is the size of the
+    fragment-expanded tree, exponential in general (`cost_walk_lower`). -/
+theorem cost_walk_poly_partial (d : Document) (fuel : Nat) (w : Walk) (s : SelSet)
+    (hs : soleOperation d.defs = some s) (hn : noSpreadSet s = true) (h : costVisits fuel d = some w) :
+    w.err = false ∧ w.visits = selCountSet s ∧ w.visits ≤ d.stoks.length := by
+  unfold costVisits at h
+  rw [hs] at h
+  have := (walk_noSpread (fragSel d.defs) fuel).2.1 [] s 0 w hn h
+  subst this
+  refine ⟨rfl, by simp, ?_⟩
+  obtain ⟨x, hx, hsel⟩ := soleOperation_mem hs
+  have h1 := selCountSet_le s
+  have h2 := opSel_stoks_le hsel
+  have h3 : x.stoks.length ≤ d.stoks.length := stoks_mem_le hx
+  simp only [Nat.zero_add]
+  omega
+
+/-- `{ f … f }` with `w + 1` fields. -/
+def flatDocOf (w : Nat) : Document :=
+  { defs := [.op none none [] [] (.mk (List.replicate (w + 1) (.field none ⟨"f", p0⟩ [] [] none)) p0 p0)] }
+
+/-- Non-vacuity of `cost_walk_poly_partial`: `{ f f f }` — 3 visits. -/
+example : costVisits 20 (flatDocOf 2) = some { visits := 3, err := false } := by decide +kernel
 
 /-! ### The depth limit is about depth only -/
 
@@ -111,8 +149,7 @@ theorem flat_never_limited (maxRec k : Nat) (inp : Input) (d : Document)
   omega
 
 /-- The flat selection set of `w + 1` fields `f`. -/
-def flatDoc (w : Nat) : Document :=
-  { defs := [.op none none [] [] (.mk (List.replicate (w + 1) (.field none ⟨"f", p0⟩ [] [] none)) p0 p0)] }
+def flatDoc (w : Nat) : Document := flatDocOf w
 
 /-- Its production depth is 8 for every width (Go: parseDocument → parseDefinition →
     parseOperationDefinition → parseOptionalSelectionSet → parseSelectionSet → parseSelection →
@@ -124,7 +161,7 @@ theorem pd_flatDoc (w : Nat) : pdDocument (flatDoc w) = 8 := by
     | succ w ih =>
       rw [List.replicate_succ, pdSels_cons, ih]
       rfl
-  simp only [pdDocument, flatDoc, pdDefs, pdDefinition, pdSelSet_mk, h]
+  simp only [pdDocument, flatDoc, flatDocOf, pdDefs, pdDefinition, pdSelSet_mk, h]
   rfl
 
 /-- Before the F-12a fix the same family was refused at width ≈ `maxRecursion`: on `{ f f f }` with
